@@ -68,6 +68,8 @@ def _carriers(f, v, loop_body, header):
             p = strip_casts(x.ops[0])
             if p.is_inst and p.op == "getelementptr" and p.field():
                 loads.append((x, p.field()))
+            elif p.is_arg or (p.is_inst and p.op == "alloca"):
+                loads.append((x, ("*", p)))          # a cursor kept behind a pointer:  *offset += ret
     return phis, loads
 
 
@@ -175,6 +177,15 @@ def _site(chk, prog, f, c, name, bi, si, oi, only=None, skip=()):
                 chk.ok("K10-loop", inst, c, "called inside a loop")
                 # result classification
                 res = [c] + [u for u in f.uses.get(c, []) if u.op in ("sext", "zext", "trunc")]
+                # two transfer calls on exclusive branches (read or write, chosen by a flag) whose results meet in a phi:
+                # a test of that phi is a test of this call's result
+                for r0 in list(res):
+                    for u in f.uses.get(r0, []):
+                        if u.op == "phi" and u.bb is not header and all(
+                                o is r0 or (o.is_inst and (o.op == "call" or (o.op in ("sext", "zext", "trunc") and o.ops[0].is_inst and
+                                                                                 o.ops[0].op == "call"))) for o in u.ops):
+                            res.append(u)
+                            res += [w for w in f.uses.get(u, []) if w.op in ("sext", "zext", "trunc")]
                 neg_edges, zero_edges = [], []
                 for r in res:
                     for u in f.uses.get(r, []):
@@ -287,6 +298,9 @@ def _site(chk, prog, f, c, name, bi, si, oi, only=None, skip=()):
                                         any(x in res for x in backward_slice(st.ops[0], phi_control=False)):
                                     ok = True
                                     detail = "fill level '%s' advanced by the result" % fld[1]
+                                elif fld[0] == "*" and q is fld[1] and any(x in res for x in backward_slice(st.ops[0], phi_control=False)):
+                                    ok = True
+                                    detail = "cursor behind a pointer advanced by the result"
                     vb = strip_casts(resolve_ptr(prog, v, f.unit)[0])
                     zero_filler = strip_casts(v).is_const or (vb.is_inst and vb.op == "call" and norm_callee(vb.callee) in ("calloc", "alloc_array", "alloc_flex"))
                     if not phis and not loads and what == "buffer" and zero_filler:
